@@ -364,6 +364,7 @@ pub fn prql_to_tokens(prql: &str) -> Result<lr::Tokens, ErrorMessages> {
     let source_id = sources.source_ids.keys().copied().min().unwrap_or(1);
 
     let (tokens, errors) = prqlc_parser::lexer::lex_source_recovery(prql, source_id);
+    let errors = parser::lexer_errors_to_byte_spans(prql, errors);
     match tokens {
         Some(tokens) if errors.is_empty() => Ok(lr::Tokens(tokens)),
         _ => Err(ErrorMessages::from(
